@@ -74,6 +74,7 @@ type evalCtx struct {
 
 // ctxPos carries position information needed by defect models.
 type ctxPos struct {
+	member bool // this schema is a member of an allOf / anyOf list (its siblings may declare what it requires)
 	inlineItem bool       // this schema is written inline as an array's items
 	outerArr   *sg.Schema // outermost enclosing inline array (nested arrays)
 	addProp    bool       // value of an additional property
@@ -171,7 +172,7 @@ func (c *evalCtx) eval(s *sg.Schema, v any, path string, pos ctxPos) {
 			c.dontcare("ref-with-sibling-keywords", path)
 			return
 		}
-		c.eval(s.Target, v, path, ctxPos{addProp: pos.addProp, nonPtr: pos.nonPtr, viaRef: true})
+		c.eval(s.Target, v, path, ctxPos{addProp: pos.addProp, nonPtr: pos.nonPtr, viaRef: true, member: pos.member})
 		return
 	}
 	if s.Ext != nil {
@@ -201,7 +202,7 @@ func (c *evalCtx) eval(s *sg.Schema, v any, path string, pos ctxPos) {
 				}
 				eb = &cp
 			}
-			c.eval(eb, v, path, ctxPos{})
+			c.eval(eb, v, path, ctxPos{member: true})
 			if b.Ref != "" && rb != nil {
 				for _, p := range rb.Props {
 					if declaresNestedStruct(p.S) {
@@ -212,7 +213,7 @@ func (c *evalCtx) eval(s *sg.Schema, v any, path string, pos ctxPos) {
 		}
 	} else {
 		for _, b := range s.AllOf {
-			c.eval(b, v, path, ctxPos{})
+			c.eval(b, v, path, ctxPos{member: true})
 		}
 	}
 	if len(s.AnyOf) > 0 {
@@ -887,8 +888,10 @@ func (c *evalCtx) evalObject(s *sg.Schema, o jsonx.Obj, path string, pos ctxPos)
 			c.dontcare("required-without-properties", path+"/"+r)
 			continue
 		}
-		if c.d.UndeclaredRequiredIgnored && s.Prop(r) == nil {
-			continue // defect model: a required name without a declared property is not checked
+		if c.d.UndeclaredRequiredIgnored && s.Prop(r) == nil && !pos.member && len(s.AllOf) == 0 && len(s.AnyOf) == 0 {
+			// defect model: a required name without a declared property is not checked - on a plain object only: in a
+			// composition a sibling member may declare the name, and the merged struct checks it
+			continue
 		}
 		c.fault("required", path+"/"+r)
 	}
@@ -977,7 +980,7 @@ func (c *evalCtx) evalAnyOf(s *sg.Schema, v any, path string) {
 	anyDC := false
 	for _, b := range s.AnyOf {
 		sub := &evalCtx{d: c.d, reCache: c.reCache}
-		sub.eval(b, v, path, ctxPos{})
+		sub.eval(b, v, path, ctxPos{member: true})
 		if len(sub.dc) > 0 {
 			anyDC = true
 			continue
